@@ -63,6 +63,11 @@ func RunOne(sc *Scenario, seed uint64, o RunOpts) *Outcome {
 		or := "HARNESS.panic"
 		if ctx != nil {
 			or = ctx.panicOracle()
+			if ctx.PanicClassify != nil {
+				if o := ctx.PanicClassify(p.Value + "\n" + p.Stack); o != "" {
+					or = o
+				}
+			}
 		}
 		out.Violation = &simrt.Violation{Oracle: or, Msg: fmt.Sprintf("panic in task %s: %s\n%s", p.Task, p.Value, p.Stack), Step: s.Steps()}
 	case s.SpinHit != "":
